@@ -26,7 +26,10 @@ CHECKS = {
   text='Bounded model checking of command histories on the real dict backend through ConnectionState.do_command: '
        'two sessions, initial m messages, every history of length <= d over append/STORE/delete(STORE+EXPUNGE)/NOOP/'
        'FETCH BODY[]/COPY/UID STORE with symbolic sequence numbers and UID base; at the final quiescent NOOP each '
-       'view equals the store (UIDs and cached flags), decided per path by z3.',
+       'view equals the store (UIDs and cached flags) and so does what each client believes from the bytes it was sent (incl. its own '
+       'STORE.SILENT), decided per path by z3. Also: the selected mailbox replaced under the same name by another session (RENAME INBOX, '
+       'DELETE+CREATE, RENAME+CREATE) followed by one of 8 commands: refused, or the client ends up believing the new mailbox; no message '
+       'of the new mailbox changes that the client was never told about.',
   note=TRUST + 'Quiescent points only (commands run to completion); two sessions; dict backend. Outside: maildir, longer histories.',
   technique='bounded model checking by symbolic execution of the real code (z3), symbolic operands'),
  'C03': dict(
@@ -56,7 +59,8 @@ CHECKS = {
        'histories on maildir: the real maildir MailboxSet of one live session (both layouts) on an in-memory directory tree, depth 2 (quick) / 3 '
        '(thorough) over RENAME, DELETE, CREATE, APPEND on three names from two folders with one message each: the UIDVALIDITY a mailbox '
        'reports is its uidlist\'s, a (UIDVALIDITY, UID) pair never denotes two messages over the history, RENAME takes messages, UIDs '
-       'and UIDVALIDITY along, the listed names follow a set-of-names model.',
+       'and UIDVALIDITY along, the listed names follow a set-of-names model. COPYUID after another session expunged a symbolic message '
+       'and the selecting session copies / moves 1:* or two symbolic numbers without having been told: every pair names one message.',
   note=TRUST + 'Outside: maildir UID assignment across restart/crash (C15), more than 3 concurrent additions, interleaving of two '
        'processes at single file-system-call granularity, UIDVALIDITY collision of a re-created mailbox.',
   technique='symbolic execution of the real code with z3; unbounded symbolic UID counter, ghost set of assigned UIDs'),
@@ -87,7 +91,8 @@ CHECKS = {
        'every attribute and SEARCH of every header/date/text key (message bodies: plain, multipart with empty parts, bad base64 / '
        'quoted-printable); 16 command shapes with a run of 5000 digits where a number is expected; SEARCH CHARSET UTF-8 with 1-3 symbolic '
        'bytes in every string-valued key except BODY/TEXT, executed against a mailbox. SequenceSet._get_range: for unbounded symbolic numbers no element '
-       'expands to more numbers than the mailbox holds.',
+       'expands to more numbers than the mailbox holds. IDLE followed by 0-4 (quick) / 0-6 (thorough) symbolic bytes where DONE is expected; the '
+       'ManageSieve parser on six line shapes with a run of 5000 digits.',
   note=TRUST + 'Codecs are exact models validated against CPython; strptime and unknown codec names are stubs (documented '
        'contract). The text of message headers is parsed by the standard library email package, which is not encoded: header values '
        'are concrete representatives (absent / well-formed / degenerate / makes the package raise), chosen by the engine - no claim '
@@ -116,7 +121,8 @@ CHECKS = {
        'interpreter at run time). Two identities in one process: the real maildir MailboxSet of alice and bob on one in-memory directory '
        'tree, alice\'s folders open; bob runs get_mailbox + listing, delete_mailbox or rename_mailbox with a symbolic name of 0..6 (quick) / '
        '0..8 (thorough) characters: no path outside bob\'s root is touched, the object he gets is none of alice\'s, lies in his root and '
-       'lists none of her messages, her tree is unchanged.',
+       'lists none of her messages, her tree is unchanged. Provisioning: the real maildir Identity.set() for two accounts with different '
+       'symbolic names (no path syntax) never gives them the same directory.',
   note=TRUST + 'os/os.path/open/Maildir are stubs; os.path.join is a sym-aware port of posixpath.join. Lexical confinement only '
        '(no symlinks). Outside: the real file system; the dict half (one MailboxSet per identity, structural).',
   technique='symbolic execution of the real path-construction code with z3, recording stub file system, lexical confinement oracle'),
@@ -185,7 +191,8 @@ CHECKS = {
        'MULTIAPPEND partial) and reported as KNOWN-FINDING; any other violation is a VIOLATION.',
   note=TRUST + 'Lock acquisition is the only suspension point of the dict backend; the lock stub over-approximates contention. Outside: '
        'process kill and maildir (C15), more than 3 commands interleaving. Also: the selected mailbox deleted or renamed by another session '
-       'followed by one of 10 commands (NO/BAD => nothing stored, OK APPEND => everything stored); 2-3 real storage coroutines really interleaving on an '
+       'followed by one of 10 commands (NO/BAD => nothing stored, OK APPEND => everything stored); one RENAME / DELETE / CREATE over any '
+       'subset of a six-name hierarchy with one message each (NO/BAD => names and messages unchanged, OK loses no message); 2-3 real storage coroutines really interleaving on an '
        'exclusion-preserving lock stub (conservation oracle), and the byte stream of MULTIAPPEND ({n} and {n+}), UID EXPUNGE, MOVE and STORE '
        'cut at every position (solver-drawn index, symbolic literal bytes) followed by end of stream on the real connection loop: an '
        'incomplete command leaves the mailboxes unchanged.',
@@ -250,7 +257,8 @@ CHECKS = {
        'bound, at parser level and through the real connection loop (readline / read_continuation, all 16 spelling pairs of the two '
        'LOGIN arguments, value also as last argument of the line); command-word case as 6 symbolic bits; mailbox names (any code points '
        'except surrogates up to the bound, printable ASCII longer) round-trip through modified UTF-7 (exact codec models); sequence sets '
-       'with symbolic numbers round-trip; SequenceSet.build denotes exactly its input.',
+       'with symbolic numbers round-trip; SequenceSet.build denotes exactly its input; a header field name in BODY[HEADER.FIELDS (...)] '
+       'spelled as either literal, quoted or atom names the same field.',
   note=TRUST + 'Outside: date-time (strptime), case mapping outside ASCII, end-to-end command effects beyond the tagged result.',
   technique='symbolic execution of the real parsers/serialisers with z3, metamorphic oracles'),
  'C20': dict(
